@@ -574,7 +574,8 @@ def _who_calls(ctx) -> None:
             ch = attr_chain(c.func)
             if ch and len(ch) == 2 and ch[0] in tracker_names(f) and ch[1] in ("register", "unregister"):
                 callers.add(f.qualname)
-    extra = callers - TRACKER_CALLERS
+    from .c01 import reduce_to_callers
+    extra = reduce_to_callers(prog, callers, set(TRACKER_CALLERS))
     ctx.ob("e.who-calls", "package", "tracker-callers", not extra, f"register/unregister called from {sorted(callers)}",
            message=f"unexpected function(s) call the alias tracker: {sorted(extra)}")
     touch = []
